@@ -302,7 +302,8 @@ def wl_tables(ctx, rng, case_no):
                         ctx.violation("cell-character-missing-although-column-has-room:" + feats,
                                       dict(wit, char=ch, column=j, row=rk, content_width=content))
                         break
-                    elif (c["k"] == "text" and c.get("overflow") is None and col["max_width"] is None
+                    elif (c["k"] == "text" and c.get("overflow") is None
+                          and (col["max_width"] is None or col["max_width"] >= need)
                           and (col.get("width") is None) and content < need):
                         # the width solver gave this column fewer content cells than its widest character needs
                         # although the available width is at or above the table's structural minimum (every case here
@@ -316,6 +317,10 @@ def wl_tables(ctx, rng, case_no):
                             cause.append("unequal-column-padding")
                         if spec["min_width"] is not None:
                             cause.append("min_width")
+                        if col["max_width"] is not None:
+                            # (a cap that admits the column's widest character: the cap is an upper bound on the
+                            # content, it does not license showing nothing)
+                            cause.append("capped-column")
                         ctx.count("mon.presence")
                         ctx.violation("fold-column-given-less-than-one-character-at-or-above-the-structural-minimum:%s"
                                       % ("+".join(cause) or "plain"),
